@@ -26,7 +26,7 @@ NOT_APPLICABLE = {}
 PROPS["C04"] = {
     "level": "exploration",
     "rule": "rapidcheck-generated (catalogue entry x channels up to the container maximum x sample rate incl. field-width edges x N biased to block edges x partition over calls and sample types x SF_INFO.frames at open in {0,N,N+1000,-1,INT64_MAX} x route); "
-            "non-trivial = N >= 1; distinct = hash of (format, channels, rate class, N, split mode, frames field, route)",
+            "a file written with SF_ENDIAN_CPU must equal, byte for byte, the one written with the host's byte order named explicitly; non-trivial = N >= 1; distinct = hash of (format, channels, rate class, N, split mode, frames field, route)",
     "assumptions": BASE_ASSUME + ["block length B of WAV/W64 ADPCM is read from the fmt chunk of the produced file by an independent walker; other B values are the table of DESIGN Appendix A.1",
                                   "sample-rate equality is asserted only where the container's rate field can hold the value exactly (DESIGN Appendix A.2)"],
     "stages": [
@@ -179,7 +179,7 @@ PROPS["C13"] = {
 PROPS["C12"] = {
     "level": "exploration",
     "rule": "byte order {container default, explicit LITTLE / BIG where sf_format_check accepts it: RIFX, AIFF-C sowt, little-endian CAF} x rapidcheck-generated: container {WAV, WAVEX, RF64, AIFF, CAF} x encoding x channels x subset of {strings, bext, cart, cues, instrument, channel map} the static support table allows (plus, one case in eight, the items it does not allow) x random order of the set calls x values: strings of length classes {1-4, odd, 63/64/127/128/255/256, <= 60, 200-2000, even} of printable ASCII + 2-byte UTF-8, bext/cart with every fixed field filled (to its width or partially), coding history / tag text 0..255 bytes with CR, LF, CRLF mixes, 0..100 cue points with names, 0..16 loops of every mode, a legal channel layout x >= 1000 frames x late variant (one item set again after audio written through sf_writef_short or through sf_write_raw); "
-            "every item optionally set once before with other values (the later set must replace it completely); bext / cart optionally passed in an exact-size heap block that ends with the text; optionally exactly one string type (including one the container has no field for); cue names up to 255 characters; oracle: get calls after re-open return the model value (identity except: software suffix, CRLF-normalised history + library line, the fields the container's chunk layout holds); audio and all items not set equal a twin file; non-trivial = >= 2 kinds in one file or a boundary-length string; distinct = hash of the case",
+            "every item optionally set once before with other values (the later set must replace it completely); bext / cart optionally passed in an exact-size heap block that ends with the text; optionally exactly one string type (including one the container has no field for); cue names up to 255 characters; oracle: get calls after re-open return the model value (identity except: software suffix, CRLF-normalised history + library line, the fields the container's chunk layout holds); audio and all items not set equal a twin file; a string set after the audio that sf_set_string accepted must be returned after re-open (the library's own SF_STR_ALLOW_END contract); non-trivial = >= 2 kinds in one file or a boundary-length string; distinct = hash of the case",
     "assumptions": BASE_ASSUME + ["which (container, item) pairs must round-trip is a static table in the harness transcribed from the chunk definitions (not learned from the library)",
                                   "WAV smpl cannot hold a negative detune (unsigned pitch fraction): detune is asserted for values >= 0 only; cue names are asserted for AIFF only (WAV never writes them)",
                                   "software strings are kept <= 64 bytes (the 128-byte staging buffer of psf_store_string is not under test)"],
